@@ -90,6 +90,82 @@ def pick(cx):
     cx.check(ok, "empty", "the empty configuration yields (u64::MAX, true)")
 
 
+@obligation("QUORUM.gather", ["C04", "C11"], floor=4, kind="collection shape (origin + one element per voter)",
+            why="ranking a buffer that holds anything but exactly one acknowledged index per voter picks the wrong quorum index")
+def gather(cx):
+    f = cx.fn("majority::Configuration::committed_index")
+    a = cx.prog.A(f)
+    g = cx.pg(f)
+    n = 0
+    VOT = "Configuration.voters"
+
+    def over_voters(lits):
+        return any(l[0] == "in" and l[2] == frozenset(["Some"]) and l[1][0] == "call" and l[1][1].endswith("::next") for l in lits)
+
+    def from_voters(e):
+        return any(is_f(x, VOT) for x in walk(e))
+    calls = [c for c in cx.prog.all_calls if c.fn is f]
+    # heap path: pushes into an initially EMPTY vector, one acknowledged index per voter
+    pushes = [c for c in calls if c.data["callee"].endswith("Vec::push") or c.data["callee"].endswith("Vec::insert") or c.data["callee"].endswith("::extend")]
+    for c in pushes:
+        args = call_args(cx, c)
+        key = cx.site_key(c, "push")
+        recv = args[0]
+        ok_origin = False
+        if recv[0] == "local":
+            ds = a.defs[recv[1]]
+            ok_origin = bool(ds) and all(d[2] == "call" and re.search(r"Vec::(with_capacity|new)$", strip_generics(f.body.blocks[d[0]]["term"]["func"].get("const", {}).get("fn", {}).get("path", ""))) for d in ds)
+        cx.check(ok_origin, key + ":origin", "the gathered buffer starts out empty (Vec::new / Vec::with_capacity), so it holds nothing but the pushed indexes", c)
+        val = args[-1]
+        okv = any(x[0] == "call" and x[1].endswith("acked_index") for x in walk(val)) and c.data["callee"].endswith("Vec::push")
+        cx.check(okv, key + ":value", "what is pushed is the voter's acknowledged index (found %s)" % show(val)[:120], c)
+        lits = cx.guard_lits(c)
+        cx.check(over_voters(lits), key + ":per-voter", "the push happens once per element of the voter iteration", c)
+        n += 1
+    # the iteration(s) feeding acked_index range over self.voters
+    acks = [c for c in calls if c.data["callee"].endswith("acked_index")]
+    cx.check(len(acks) >= 1, "acked:calls", "acked_index is consulted")
+    iters = [c for c in calls if c.data["callee"].endswith("::into_iter")]
+    for c in acks:
+        args = call_args(cx, c)
+        idv = args[-1]
+        cx.check(any(x[0] == "call" and x[1].endswith("::next") for x in walk(idv)), cx.site_key(c, "acked:arg"), "acked_index is asked about the iterated voter id (found %s)" % show(idv)[:100], c)
+        n += 1
+    feeding = [c for c in iters if from_voters(call_args(cx, c)[0])]
+    cx.check(len(feeding) >= len(acks), "acked:over-voters", "every gathering loop iterates self.voters")
+    # stack path: the slice handed on covers exactly voters.len() initialised slots
+    raws = [c for c in calls if c.data["callee"].endswith("from_raw_parts_mut") or c.data["callee"].endswith("from_raw_parts")]
+    for c in raws:
+        args = call_args(cx, c)
+        ok = match(call("~HashSet::len", fld(VOT)), args[1]) is not None
+        cx.check(ok, cx.site_key(c, "stack:len"), "the stack slice has exactly voters.len() elements (found %s)" % show(args[1])[:100], c)
+        n += 1
+    # stores into the stack array are indexed by the enumeration counter of the voter loop
+    for bi, blk in enumerate(f.body.blocks):
+        for si, st in enumerate(blk["stmts"]):
+            if st.get("k") == "assign" and any(isinstance(p, dict) and "index" in p for p in st["place"]["p"]):
+                ty = f.body.local_ty(st["place"]["l"])
+                if "MaybeUninit" not in ty:
+                    continue
+                ip = [p for p in st["place"]["p"] if isinstance(p, dict) and "index" in p][0]
+                ie = a.expr_local(ip["index"], (bi, si))
+                # (Enumerate::next(iter) as Some).0.0
+                ok = ie[0] == "tfield" and ie[2] == 0 and any(x[0] == "call" and "Enumerate" in x[1] and x[1].endswith("::next") for x in walk(ie))
+                from ..prog import Site
+                cx.check(ok, "stack:slot", "each voter's index is stored in its own slot (the enumeration counter) (found index %s)" % show(ie)[:100], Site(f, bi, si, "write"))
+                v = a.expr_rvalue(st["rv"], (bi, si))
+                cx.check(any(x[0] == "call" and x[1].endswith("acked_index") for x in walk(v)), "stack:value", "the slot receives the voter's acknowledged index", Site(f, bi, si, "write"))
+                n += 1
+    # majority is taken over the length of the gathered slice
+    maj = [c for c in calls if c.data["callee"].endswith("util::majority")]
+    for c in maj:
+        arg = call_args(cx, c)[0]
+        ok = arg[0] == "call" and arg[1].endswith("::len") and (any(x[0] == "call" and "from_raw_parts" in x[1] for x in walk(arg)) or any(x[0] == "phi" for x in walk(arg)) or from_voters(arg))
+        cx.check(ok, cx.site_key(c, "majority:of"), "the quorum size is majority(number of gathered indexes) (found %s)" % show(arg)[:100], c)
+        n += 1
+    cx.check(n >= 4, "floor", "gathering sites were found")
+
+
 @obligation("QUORUM.stack_bound", ["C11"], floor=1, kind="constant agreement",
             why="a stack-array length test that disagrees with the array length writes out of bounds")
 def stack_bound(cx):
